@@ -627,6 +627,9 @@ def simulate_poly(rng, tmp, p):
             if not chosen or x - chosen[-1] >= p.get("min_gap", 20):
                 chosen.append(x)
         chosen = chosen[:n]
+        if p.get("shared_positions") and c != sim.chroms[0]:
+            chosen = [v["pos"] for v in sim.variants[sim.chroms[0]]]  # the same coordinates on every chromosome
+        dead = p.get("dead_chrom") if (c == sim.chroms[-1] and len(sim.chroms) > 1) else None
         vs = []
         for x in chosen:
             ref = refseq[x]
@@ -642,6 +645,13 @@ def simulate_poly(rng, tmp, p):
             for h in range(distinct):
                 base.append([rng.randint(0, len(v["alts"])) if rng.random() < 0.6 else 0 for v in vs])
             hs = [base[h % distinct][:] for h in range(P)]
+            if dead == "hom":
+                # a chromosome on which the sample cannot be phased: at most one heterozygous variant
+                keep = rng.randrange(len(vs)) if vs and rng.random() < 0.7 else -1
+                for i in range(len(vs)):
+                    if i != keep:
+                        for h in range(1, P):
+                            hs[h][i] = hs[0][i]
             haps[s] = hs
         sim.haps[c] = haps
     sim.fasta = os.path.join(tmp, "ref.fa")
@@ -666,6 +676,8 @@ def simulate_poly(rng, tmp, p):
     for c in sim.chroms:
         for s in samples:
             nfrag = max(1, int(depth * P * L / ((rl_min + rl_max) / 2)))
+            if p.get("dead_chrom") == "noreads" and c == sim.chroms[-1] and len(sim.chroms) > 1:
+                continue
             for _ in range(nfrag):
                 h = rng.randrange(P)
                 fl = rng.randint(rl_min, rl_max)
@@ -724,6 +736,12 @@ def simulate_poly(rng, tmp, p):
             calls = []
             for s in samples:
                 g = sorted(sim.haps[c][s][h][i] for h in range(P))
+                if p.get("gt_noise") and rng.random() < p["gt_noise"]:
+                    # a genotype call that disagrees with the reads: one allele copy replaced by another allele of the record
+                    k = rng.randrange(P)
+                    g[k] = rng.choice([x for x in range(len(v["alts"]) + 1) if x != g[k]])
+                    g.sort()
+                    sim.gt_noise_sites = getattr(sim, "gt_noise_sites", 0) + 1
                 calls.append({"GT": "/".join(str(x) for x in g), "GQ": str(rng.randint(20, 99))})
             d.records.append({"chrom": c, "pos": v["pos"] + 1, "id": ".", "ref": v["ref"], "alts": v["alts"], "qual": "50", "filter": "PASS",
                               "info": "DP=%d" % rng.randint(5, 90), "fmt": ["GT", "GQ"], "calls": calls, "kind": "snv"})
